@@ -25,31 +25,12 @@ class Sync(pipeline.Module):
 
     def design_proofs(self, prop, tier, sc):
         # the count discipline for EVERY number of pods and containers: IndInv (slices in bounds, a message always
-        # carries something) is inductive, every accepted message shrinks what is left; Apalache, integers unbounded
-        import os, shutil
-        d = sc.sub("apalache")
-        src = os.path.join(vlib.TLA, "SyncChunkInd.tla")
-        shutil.copy(src, d)
-        res = {}
-        for name, init, inv, length in (("Init => IndInv", "Init", "IndInv", 0),
-                                        ("IndInv /\\ Next => IndInv'", "IndInit", "IndInv", 1),
-                                        ("Variant (every accepted message shrinks the rest)", "IndInit", "Variant", 1)):
-            ok, out = vlib.run_apalache(d, "SyncChunkInd.tla", init, inv, length)
-            if not ok:
-                raise vlib.ToolFailure("SyncChunkInd: %s does not hold - the specification is inconsistent" % name)
-            res[name] = "proved by apalache-mc (unbounded integers)"
-        # vacuity guard: without the clamp after an oversized message the invariant is not inductive
-        neg = open(src).read().replace("MODULE SyncChunkInd", "MODULE SyncChunkIndNeg").replace(
-            "pp' = ClampP(np, nc, remP, remC) /\\ cp' = ClampC(np, nc, remP, remC)", "pp' = np /\\ cp' = nc")
-        if "pp' = np" not in neg:
-            raise vlib.ToolFailure("SyncChunkInd: the negative control could not be derived")
-        with open(os.path.join(d, "SyncChunkIndNeg.tla"), "w") as f:
-            f.write(neg)
-        ok, out = vlib.run_apalache(d, "SyncChunkIndNeg.tla", "IndInit", "IndInv", 1)
-        if ok:
-            raise vlib.ToolFailure("vacuity guard: IndInv was expected not to be inductive without the clamp")
-        res["negative control (no clamp after an oversized message)"] = "IndInv not inductive, as expected"
-        return res
+        # carries something) is inductive, every accepted message shrinks what is left
+        return vlib.apalache_suite(sc.sub("apalache"), "SyncChunkInd",
+                                   [("Init => IndInv", "Init", "IndInv", 0),
+                                    ("IndInv /\\ Next => IndInv'", "IndInit", "IndInv", 1),
+                                    ("Variant (every accepted message shrinks the rest)", "IndInit", "Variant", 1)],
+                                   ("pp' = ClampP(np, nc, remP, remC) /\\ cp' = ClampC(np, nc, remP, remC)", "pp' = np /\\ cp' = nc"))
 
     def random_args(self, prop, tier, sd, out):
         # many small objects (sizes in bytes) and mixed sizes: written directly (no TLC scope for thousands of objects)
